@@ -51,6 +51,12 @@ def gen_cases(tier, seed):
         for fill in (b'\x00', b'\xff', b'\x5d', b'\xba', b'\x17', b'\xe8', b'\x0b', b'\xd0'):
             n = gen.max_chars(v, 'L', 'byte')
             cases.append(common.mk(fill * rng.randint(1, n), tag='crafted', version=v, error='L', mode='byte'))
+    # Micro M4: contents whose right-most column is completely dark under a candidate (extreme value of the edge score)
+    for c in gen.m4_full_right_edge_contents(40 if tier == 'quick' else 400, seed):
+        kw = {'version': 'M4', 'boost_error': False}
+        if rng.random() < 0.7:
+            kw['error'] = rng.choice(['L', 'M'])
+        cases.append(common.mk(c, tag='m4-full-edge', **kw))
     # requested masks
     for _ in range(400 if tier == 'quick' else 4000):
         cls = rng.choice(['digits', 'alnum', 'ascii', 'bytes'])
